@@ -130,7 +130,7 @@ R2 = ['~id:q~ $[*][ yes() ]']
     encodes=["csvpath/matching/productions/reference.py:Reference._variable_value/_header_value/_get_value_from_results/get_results",
              "csvpath/managers/results/results_manager.py:ResultsManager.get_variables/data_file_for_reference/_find_instance", "csvpath/util/reference_parser.py:ReferenceParser"],
     tiers={"quick": {"timeout": 1800, "K": {"LO": -1, "HI": 1}, "shards": product(twice=[False], w1=[0], w2=[1]) + product(twice=[True], w1=[0], w2=[1], v1=[0], t2=[-1, 1, 2, 3])},
-           "thorough": {"timeout": 6000, "K": {"LO": -2, "HI": 3}, "shards": product(twice=[False], w1=[0, 2]) + product(twice=[True], w1=[0, 2], t2=[-1, 0, 1, 2, 3])}},
+           "thorough": {"timeout": 6000, "K": {"LO": -1, "HI": 2}, "shards": product(twice=[False], w1=[0, 2]) + product(twice=[True], w1=[0], w2=[1, 2], t2=[-1, 0, 1, 2, 3])}},
 )
 def references(twice: bool, v1: int, w1: int, v2: int, w2: int, t2: int = 1) -> str:
     import datetime
